@@ -220,5 +220,11 @@ Definition wf_distinct (i : input) : Prop := wf_distinctb i = true.
 Definition is_start_stop (c : call) : bool := match c with St _ => false | _ => true end.
 Definition memb (s : sink) (l : list sink) : bool := existsb (Nat.eqb s) l.
 
+(* the startTestRun/stopTestRun calls the caller makes, and the ones a sink receives over the whole history *)
+Definition ss_of_op (o : op) : list call :=
+  match o with Start => [StartRun] | Stop => [StopRun] | _ => [] end.
+Definition ss_log (s : sink) (os : list step_obs) : list call :=
+  flat_map (fun so => filter is_start_stop (nth s (s_new so) [])) os.
+
 (* no finding is delimited for C18 after the F6 repair *)
 Definition findings (i : input) : list nat := [].
